@@ -121,6 +121,8 @@ def apply_edit(conc, loads, d, op):
         blk[op["key"]].reverse()
     elif k == "sethidden":
         blk[op["key"]] = "hidden VALUE 1 2 3"
+    elif k == "sethiddenkv":
+        blk[op["kv"]][op["key"]] = "hidden VALUE 1 2 3"
     elif k == "readmissing":
         _ = blk[concretise.case(op["key"], op["kc"])]
     else:
@@ -169,7 +171,7 @@ def check_history(ck, conc, loads, dumps, hist):
             ck.violation("C03|unreadable|%s" % sig_where, "independent reader cannot read the printed text: %s" % ex,
                          {"ops": ops, "printed": out})
             return
-        if "__verif__" in out or "hidden VALUE" in out:
+        if "hidden VALUE" in out.replace("HIDDEN", "hidden").replace("value", "VALUE"):
             ck.violation("C03|hidden-key-printed|edit", "a __name__ key set through the dict API appears in the output",
                          {"ops": ops, "printed": out})
             return
